@@ -261,16 +261,65 @@ func checkInstallOrder(c *Ctx, a *parserAnchors, in installer) {
 	key := in.kind + " interceptors"
 	// calls of the installer in the constructor
 	var calls []*ssa.Call
-	allInstrs(a.ctor, func(_ *ssa.BasicBlock, _ int, ins ssa.Instruction) {
-		if call, ok := ins.(*ssa.Call); ok && call.Call.StaticCallee() == in.fn {
-			calls = append(calls, call)
-		}
-	})
+	for _, f := range c.ctorScope(a) {
+		allInstrs(f, func(_ *ssa.BasicBlock, _ int, ins ssa.Instruction) {
+			if call, ok := ins.(*ssa.Call); ok && call.Call.StaticCallee() == in.fn {
+				calls = append(calls, call)
+			}
+		})
+	}
 	if len(calls) != 1 {
 		c.unres(key+": application loop", a.ctor.Pos(), "expected one call of %s in the constructor, found %d", fnName(in.fn), len(calls))
 		return
 	}
 	call := calls[0]
+	// range-over-func form:  for _, x := range slices.Backward(opts.s) { install(x) }  — the body is a synthetic yield
+	// closure of the constructor, the iterator a call of slices.Backward (descending) / slices.All, slices.Values (ascending)
+	host := call.Parent()
+	if host.Parent() != nil {
+		host = host.Parent()
+	}
+	if y := call.Parent(); y != host {
+		var argIdx = -1
+		for i, p := range in.fn.Params {
+			if p == in.param {
+				argIdx = i
+			}
+		}
+		isYieldParam := argIdx >= 0 && len(y.Params) >= 1 && call.Call.Args[argIdx] == ssa.Value(y.Params[len(y.Params)-1])
+		var iter *ssa.Call
+		allInstrs(host, func(_ *ssa.BasicBlock, _ int, ins ssa.Instruction) {
+			dc, ok := ins.(*ssa.Call)
+			if !ok || dc.Call.StaticCallee() != nil || len(dc.Call.Args) != 1 {
+				return
+			}
+			if mc, ok := dc.Call.Args[0].(*ssa.MakeClosure); ok && mc.Fn == ssa.Value(y) {
+				iter, _ = dc.Call.Value.(*ssa.Call)
+			}
+		})
+		name := ""
+		if iter != nil && iter.Call.StaticCallee() != nil && pkgPathOf(iter.Call.StaticCallee()) == "slices" {
+			name = iter.Call.StaticCallee().Name()
+			if o := iter.Call.StaticCallee().Origin(); o != nil {
+				name = o.Name()
+			}
+		}
+		switch {
+		case !isYieldParam || iter == nil:
+			c.unres(key+": applied in descending index order", call.Pos(), "range-over-func loop whose iterator or loop variable is not recognised (accepted: for _, x := range slices.Backward(s) { install(x) })")
+			return
+		case name == "Backward":
+			c.ok(key+": applied in descending index order", call.Pos(), "range over slices.Backward: last installed is applied first, so the first installed ends up outermost and runs first")
+		case name == "All" || name == "Values":
+			c.bad(key+": applied in descending index order", call.Pos(), "interceptors are applied in ascending order: the LAST installed becomes the outermost wrapper and runs first")
+			return
+		default:
+			c.unres(key+": applied in descending index order", call.Pos(), "iterator %s not recognised (accepted: slices.Backward)", name)
+			return
+		}
+		checkBuilderAppendOnly(c, key, call, iter.Call.Args[0])
+		return
+	}
 	// argument: element of a slice at index phi
 	var arg ssa.Value
 	for i, p := range in.fn.Params {
@@ -303,7 +352,7 @@ func checkInstallOrder(c *Ctx, a *parserAnchors, in installer) {
 			}
 		}
 		guard := false
-		for _, ob := range a.ctor.Blocks {
+		for _, ob := range host.Blocks {
 			if iff := blockIf(ob); iff != nil {
 				if b, ok := iff.Cond.(*ssa.BinOp); ok && b.X == ssa.Value(phi) {
 					if k, ok := constInt64(b.Y); ok && ((b.Op == token.GEQ && k == 0) || (b.Op == token.GTR && k == -1)) && condEdgeDominates(ob, true, call.Block()) {
@@ -330,8 +379,14 @@ func checkInstallOrder(c *Ctx, a *parserAnchors, in installer) {
 	default:
 		c.unres(key+": applied in descending index order", call.Pos(), "loop idiom not recognised (accepted: for i := len(s)-1; i >= 0; i-- over the options slice)")
 	}
+	checkBuilderAppendOnly(c, key, call, ia.X)
+}
+
+// checkBuilderAppendOnly: the slice the interceptors are taken from is an options field copied from a builder field
+// that the builder only ever appends its parameter to.
+func checkBuilderAppendOnly(c *Ctx, key string, call *ssa.Call, slice ssa.Value) {
 	// the slice comes from a builder field that the builder only appends to
-	src := sliceSourceField(ia.X)
+	src := sliceSourceField(slice)
 	if src == nil {
 		c.unres(key+": source slice", call.Pos(), "the slice is not a field of the options struct")
 		return
